@@ -56,6 +56,12 @@ PATTERNS = [
     (r"^[^\w\d]{1,3}$", ["-", " !"], ["a", "_", "", "-_"]),
     (r"[^\d]x", ["ax", "_x"], ["1x", "x"]),
     (r"^[^\w]+\Z", ["-+", "!"], ["_", "a-", ""]),
+    (r"^a.{12}b$", ["a" + "x" * 12 + "b", "a" + "-" * 12 + "b"], ["ab", "a" + "\n" * 12 + "b"]),
+    (r"^\w{12}\d{6}$", ["a" * 12 + "1" * 6], ["a" * 12, "-" * 18]),
+    (r"^[^\w]{4,8}$", ["----", "!!!!!!"], ["____", "-a--", "---"]),
+    (r"[^\d\w]{6}|[^a-zA-Z0-9]{6}", ["------", "______"], ["-----", "abcdef"]),
+    (r"^[^\w ]{3}\Z", ["---", "!?!"], ["- -", "_--", "----"]),
+    (r"[a-c]{2,}x|[^a-z]\d", ["aax", "-1", "abcx"], ["ax", "a1", ""]),
 ]
 UUIDS = [uuid.UUID(int=5, version=4), uuid.UUID("886313e1-3b8a-4372-9b90-0c9aee199e5d"),
          uuid.UUID(int=2 ** 127 + 12345, version=4)]
